@@ -17,3 +17,5 @@ cfg("C17", assumptions=[M_SHA],
 cfg("C06", assumptions=[ILAWS])
 cfg("C07", assumptions=[ILAWS, "A-entropy: the entropy function returns n bytes when asked for n and does not raise",
                         "induction over call histories is a 3-line meta-argument over the proved per-method clauses (flags monotone, raise-iff conditions), not mechanised"])
+cfg("C01", assumptions=[ILAWS, "A-ae-empty: arbitrary_element(b'') is defined for the group (ground-checked for the shipped sets)"])
+cfg("C08", assumptions=[ILAWS])
